@@ -117,6 +117,14 @@ func runTx(tx *corazawaf.Transaction, pl txPlan) (out string, readers []io.Reade
 		if !step() {
 			return
 		}
+		// readers obtained while the buffers are still empty (e.g. by a connector that fetches the
+		// reader before streaming): they too must be dead after Close
+		if r, err := tx.RequestBodyReader(); err == nil {
+			readers = append(readers, r)
+		}
+		if r, err := tx.ResponseBodyReader(); err == nil {
+			readers = append(readers, r)
+		}
 		tx.ProcessConnection("10.0.0.1", 1234, "10.0.0.2", 80)
 		tx.ProcessURI("/p?"+pl.Query, "POST", "HTTP/1.1")
 		if len(pl.Ctl) > 0 {
@@ -431,6 +439,14 @@ func Run(cfg vh.Config) (*vh.Result, error) {
 		}
 		o1, _ := runTx(probe, c.Probe)
 		o2, _ := runTx(ftx, c.Probe)
+		// ... and they must stay dead while the recycled object buffers the NEXT transaction's bodies
+		for _, rd := range deadReaders {
+			b, _ := io.ReadAll(rd)
+			res.OracleEvaluations++
+			if len(b) != 0 {
+				fail("c05-reader-alive-after-close", fmt.Sprintf("a body reader of a closed transaction yields %d bytes of the next transaction's body", len(b)), c)
+			}
+		}
 		res.OracleEvaluations++
 		if o1 != o2 {
 			fail("c05-probe-outcome", fmt.Sprintf("probe outcome on the recycled object differs from a fresh WAF: %.300s vs %.300s", o1, o2), c)
